@@ -722,8 +722,17 @@ int main(int argc, char** argv)
         g_ran_count = 0;
         g_ran_fn = "";
         try {
-          auto r = W->sb[s]->invoke_sandbox_function(n1, 5);
-          e.str("out", "ok").num("ret", r.UNSAFE_unverified());
+#if !defined(BK_NOOP)
+          if (a2 != "n1") {
+            // a name the library does not export: the lookup fails, every time it is tried
+            auto r = W->sb[s]->template INTERNAL_invoke_with_func_name<int(int)>(a2.c_str(), 5);
+            e.str("out", "ok").num("ret", r.UNSAFE_unverified());
+          } else
+#endif
+          {
+            auto r = W->sb[s]->invoke_sandbox_function(n1, 5);
+            e.str("out", "ok").num("ret", r.UNSAFE_unverified());
+          }
         } catch (const std::runtime_error&) {
           e.str("out", "abort");
         }
